@@ -107,6 +107,9 @@ def cases(tier, r):
   for _ in range(500 if tier == 'quick' else 8000):
     yield 'dag', {'graph': True, 'seed': r.getrandbits(48), 'size': r.choice([3, 6, 10]),
                   'kind': r.choice(KINDS)}
+  for _ in range(80 if tier == 'quick' else 1200):
+    yield 'overrides', {'overrides_stage': True, 'seed': r.getrandbits(48),
+                        'kind': r.choice(['copy_with', 'deepcopy_with'])}
   for _ in range(120 if tier == 'quick' else 2000):
     yield 'annotated', {'graph': True, 'annotated': True, 'seed': r.getrandbits(48), 'kind': r.choice(KINDS)}
   for _ in range(60 if tier == 'quick' else 1000):
@@ -133,7 +136,59 @@ def mutable_ids(root, deep=True):
   return out
 
 
+def run_overrides(case):
+  """copy_with / deepcopy_with WITH overrides: the copy holds exactly the objects it was given
+  (also when they equal what the original holds), and editing them never reaches the original."""
+  r = random.Random(case['seed'])
+  f, g = graphs.node_fn(1, 0), graphs.node_fn(1, 1)
+  sub = fdl.Config(g, p=5, q=[0])
+  root = fdl.Config(f, p=[1, 2], q=sub, r=1)
+  if r.random() < 0.4:
+    root.p = [sub, 2]
+  before = graphs.canon(root)
+  before_build = build_canon(root)
+  kind = case['kind']
+  fn = {'copy_with': fdl.copy_with, 'deepcopy_with': fdl.deepcopy_with}[kind]
+  given, equal = {}, {}
+  for arg in r.sample(['p', 'q', 'r'], r.randint(1, 3)):
+    same = r.random() < 0.6
+    equal[arg] = same
+    if arg == 'p':
+      given[arg] = list(root.p) if same else [9]
+    elif arg == 'q':
+      given[arg] = copy.deepcopy(root.q) if same else fdl.Config(g, p=6)
+    else:
+      given[arg] = True if same else 2          # True == 1
+  obs = {'overrides_stage': True, 'kind': kind, 'equal_to_current': equal, 'problems': []}
+  try:
+    new = fn(root, **given)
+  except Exception as e:
+    obs['problems'].append(f'raised {type(e).__name__}: {e}'[:160])
+    return obs
+  for arg, v in given.items():
+    got = new.__arguments__.get(arg)
+    if got is not v:
+      obs['problems'].append(f'{arg}: the copy does not hold the object it was given'
+                             f' (holds {"the original\'s object" if got is root.__arguments__.get(arg) else repr(got)[:60]})')
+  # edit what the copy now holds, in place
+  if 'p' in given:
+    new.p.append(3)
+  if 'q' in given:
+    new.q.p = 512
+    if isinstance(new.q.__arguments__.get('q'), list):
+      new.q.q.append(1)
+  if 'r' in given:
+    new.r = 77
+  if graphs.canon(root) != before:
+    obs['problems'].append('editing the values given to the copy changed what the original reports')
+  elif build_canon(root) != before_build:
+    obs['problems'].append('editing the values given to the copy changed what the original builds')
+  return obs
+
+
 def execute(case):
+  if case.get('overrides_stage'):
+    return run_overrides(case), None
   kind = case['kind']
   if case.get('graph'):
     r = random.Random(case['seed'])
@@ -230,6 +285,17 @@ def execute(case):
     out['steps'].append({'res': res, 'state': argstore.observe(cp, with_build=(kind != 'cast_partial'))})
   out['orig_after'] = argstore.observe(cfg)
   out['orig_init'] = init
+  # a copy taken AFTER the edit history (positional gaps, unset slots, tag-only arguments ...)
+  try:
+    cp2 = make_copy(kind, cp)
+    wb = kind != 'cast_partial'
+    a, b = argstore.observe(cp, with_build=wb), argstore.observe(cp2, with_build=wb)
+    for o in (a, b):      # the storage order of named arguments is not part of what a copy must keep
+      o['args_real'] = sorted(o['args_real'], key=repr)
+    out['recopy'] = [f for f in ('view', 'args_real', 'tags', 'build') if a[f] != b[f]]
+    out['recopy_detail'] = {f: [a[f], b[f]] for f in out['recopy'][:2]}
+  except Exception as e:
+    out['recopy'] = [f'raised {type(e).__name__}']
   req = {k: case[k] for k in ('p', 'sig', 'args', 'kwargs', 'ops')}
   return out, req
 
@@ -260,7 +326,7 @@ def build_canon(c):
 
 
 def compare(real, model):
-  if model is None or 'copy_raised' in real:
+  if model is None or 'copy_raised' in real or real.get('overrides_stage'):
     return []
   if 'm_heap' in real:
     mh = model.get('deepcopy', model.get('shallow_copy'))
@@ -276,6 +342,11 @@ def compare(real, model):
 
 
 def oracle(case, real):
+  if real.get('overrides_stage'):
+    if real['problems']:
+      return {'what': f"{real['kind']} with overrides: " + real['problems'][0], 'problems': real['problems'],
+              'override equals the current value': real['equal_to_current']}
+    return None
   if 'copy_raised' in real:
     return {'what': 'copying raised', 'kind': real['kind'], 'raised': real['copy_raised']}
   kind = real['kind']
@@ -300,6 +371,9 @@ def oracle(case, real):
     if ci[f] != oi[f]:
       return {'what': f'{kind}: the copy does not report the same {f} as the original',
               'copy': ci[f], 'original': oi[f]}
+  if real.get('recopy'):
+    return {'what': f'{kind}: a copy taken after the edit history differs from the edited configuration',
+            'fields': real['recopy'], 'detail': real.get('recopy_detail')}
   a, b = dict(real['orig_after']), dict(real['orig_init'])
   for d in (a, b):
     d.pop('seqs', None)
@@ -311,6 +385,8 @@ def oracle(case, real):
 
 
 def nontrivial(case, real):
+  if real.get('overrides_stage'):
+    return ('overrides', real['kind'], tuple(sorted(real['equal_to_current'].items())))
   if 'copy_raised' in real:
     return None
   if case.get('graph'):
